@@ -1,9 +1,16 @@
 #!/bin/sh
 # usage: tools/sweep.sh <tier> <seed>...   run every check at the given seeds, print non-silent ones
+# Builds and runs in the tree the script lives in (works inside a `vp run` snapshot);
+# evidence and replay files go to a scratch root, never to /verif/evidence.
 TIER="$1"; shift
+ROOT="$(cd "$(dirname "$0")/.." && pwd)"
+"$ROOT/bin/check" --build || exit 2
+SCR="${SWEEP_ROOT:-/tmp/sweep-$$}"; mkdir -p "$SCR"; cp "$ROOT/known_findings.json" "$SCR/"
+IDS="${SWEEP_IDS:-C01 C02 C03 C04 C05 C06 C07 C08 C09 C10 C11 C12 C13 C14 C15 C16 C17 C18 C19 C20}"
 for seed in "$@"; do
-  for id in C01 C02 C03 C04 C05 C06 C07 C08 C09 C10 C11 C12 C13 C14 C15 C16 C17 C18 C19 C20; do
-    VERIF_SEED=$seed /verif/harness/target/verif/vmon check $id $TIER 2>&1 | grep -E "VIOLATION|INCONCLUSIVE|verdict=" | grep -v "held-on-observed" | cut -c1-260 | sed "s/^/[seed $seed] /"
+  for id in $IDS; do
+    VERIF_ROOT="$SCR" VERIF_SEED=$seed "$ROOT/harness/target/verif/vmon" check $id $TIER 2>&1 | grep -E "VIOLATION|INCONCLUSIVE|verdict=" | grep -v "held-on-observed" | cut -c1-300 | sed "s/^/[seed $seed] /"
   done
   echo "[seed $seed] done $(date +%T)"
 done
+[ -z "${SWEEP_ROOT:-}" ] && rm -rf "$SCR"
